@@ -307,6 +307,19 @@ def neighbour_cases(cls):
     return cases
 
 
+def wide_cases(cls):
+    """sizes around 2^8 and (non-class elements) 2^12, 2^16: a size or index kept in a narrow integer type shows here"""
+    cases = []
+    sizes = [255, 256, 257, 300] + ([4097, 65537] if not cls else [])
+    for n in sizes:
+        base = ["arr cfg %d 3" % cls, "arr fill 0 %d 7" % n, "arr set 0 %d 9" % (n - 1), "arr set 0 0 8"]
+        cases.append(close(base + ["arr len 0", "arr back 0", "arr front 0", "arr get 0 %d" % (n - 1), "arr copy 1 0", "arr set 1 %d 11" % (n - 1),
+                                   "arr get 0 %d" % (n - 1), "arr resize 0 %d" % (n + 1), "arr get 0 %d" % (n - 1), "arr resizev 0 %d 5" % (n + 3),
+                                   "arr get 0 %d" % (n + 2), "arr resize 0 %d" % (n - 1), "arr back 0", "arr mctor 2 1", "arr back 2", "arr swap 0 2", "arr back 0"]))
+        cases.append(close(["arr cfg %d 2" % cls, "arr init 0 1 2 3", "arr resizeself 0 %d 1" % n, "arr back 0", "arr len 0", "arr resize 0 2", "arr iter 0"]))
+    return cases
+
+
 def close(case):
     r = Ref()
     for l in case:
@@ -471,7 +484,7 @@ def gen_random_case(rng, cls, maxlen, maxval=240):
 
 
 def gen_cases(rng, cls, tier):
-    cases = gen_systematic(cls, 1 if tier == "quick" else 2) + neighbour_cases(cls)
+    cases = gen_systematic(cls, 1 if tier == "quick" else 2) + neighbour_cases(cls) + wide_cases(cls)
     n = 2500 if tier == "quick" else 40000
     cases += [gen_random_case(rng, cls, 40 if tier == "quick" else 70) for _ in range(n)]
     return cases
